@@ -50,9 +50,9 @@ Step(st, o, px) ==
                    ELSE IF tx # {} /\ Decode(im.data) # N(px[o.img + 1]) THEN "payload differs from the image's RGBA pixels"
                    ELSE ""
      IN [st |-> st1, v |-> v]
-  ELSE \* erase
+  ELSE \* erase at a position, or (op "eraseall": erase(img, None)) every placement of the image
      LET t1 == ExecAll(t0, its, 1)
-         st1 == [st EXCEPT !.t = t1, !.want = @ \ {<<o.img, o.r, o.c>>}]
+         st1 == [st EXCEPT !.t = t1, !.want = IF o.op = "eraseall" THEN { w \in @ : w[1] # o.img } ELSE @ \ {<<o.img, o.r, o.c>>}]
      IN [st |-> st1, v |-> IF t1.err # "" THEN t1.err ELSE IF Len(its) # 1 THEN "erase is not exactly one command" ELSE ""]
 
 RECURSIVE Walk(_, _, _, _)
